@@ -19,11 +19,16 @@
        same connection, the ring represents the list version's queue; an enqueue first displaces the D oldest entries.  With the
        high-priority ring of C13: sendWaitingASDUs on both rings = send_waiting of the server model (C06_sched_mq_send_waiting).
        The ring-backed functions are run against the real static functions on a real connection on every run (`sch` scripts).
-   PARTIAL: the pieces are composed per operation; one trace theorem over whole server histories with the ring in place (the
-   model's step function re-stated with rings, displacement included) is not stated. *)
+   (6) HISTORIES (Cs104/SchedHist.v, C06_sched_history): every sequence of scheduler operations on a connection with both rings in
+       place - enqueue, response, scheduling round, acknowledgement of n entries, connection end, socket failure, state change -
+       runs without a fault and is, frame by frame and return value by return value, a history of the scheduler of the server model
+       in which the environment chooses, per enqueue, how many of the oldest events are displaced first and, per response,
+       whether it is refused.  `rstep` is the machine the `sch` scripts execute against the real functions on every run.
+   PARTIAL: the scheduler sub-machine is composed; the message handling of the server model's step function (handleMessage, timers)
+   is not re-stated with rings. *)
 From Coq Require Import ZArith List Bool.
 From RecordUpdate Require Import RecordSet.
-From L60870 Require Import Cs104.Server Cs104.EventLogProofs Cs104.MsgQueue Cs104.MqRingProofs Cs104.QueueRefine Cs104.MqCapacity Cs104.SchedProofs Cs104.HpRingProofs Cs104.SchedRing Cs104.SchedMq.
+From L60870 Require Import Cs104.Server Cs104.EventLogProofs Cs104.MsgQueue Cs104.MqRingProofs Cs104.QueueRefine Cs104.MqCapacity Cs104.SchedProofs Cs104.HpRingProofs Cs104.SchedRing Cs104.SchedMq Cs104.SchedHist.
 Import ListNotations RecordSetNotations.
 Local Open Scope Z_scope.
 
@@ -187,3 +192,27 @@ Proof. exact send_waiting_rings. Qed.
 
 Example C06_sched_mq_example : exm_run = Some ([exm_ev 1; exm_ev 2; exm_ev 3], [QSENT; QSENT], [QWAIT; QWAIT]) /\ Rq (mq_new 1) [] (kbuf exm_c) [].
 Proof. exact sched_mq_example. Qed.
+
+(* ---- histories (Cs104/SchedHist.v).  Rel r (c, s): the ring-side connection is c up to the parked list, the high-priority ring
+   represents hp c, the event ring represents mq s (Rq), the next entry ids agree. *)
+Theorem C06_sched_history : forall g now ops r cs, Rel r cs -> nid (r_q r) + Z.of_nat (length ops) < TWO64 ->
+  exists chs r' xs, rrun g now r ops = MsgQueue.Ok (r', xs) /\ length chs = length ops /\
+                    snd (srun g now cs ops chs) = xs /\ Rel r' (fst (srun g now cs ops chs)).
+Proof. exact history_sim. Qed.
+
+Theorem C06_sched_history_step : forall g now r cs o, Rel r cs -> nid (r_q r) < TWO64 ->
+  exists ch r' x, rstep g now r o = MsgQueue.Ok (r', x) /\ Rel r' (fst (sstep g now cs o ch)) /\ snd (sstep g now cs o ch) = x /\
+                  nid (r_q r) <= nid (r_q r') <= nid (r_q r) + 1.
+Proof. exact step_sim. Qed.
+
+Theorem C06_sched_history_init : forall g now n m id, 1 <= n -> 1 <= m ->
+  Rel {| r_c := new_conn g now id; r_hq := hp_new n; r_q := mq_new m; r_t := [] |} (new_conn g now id, server_init).
+Proof. exact Rel_init. Qed.
+
+Example C06_sched_history_example :
+  match rrun exh_g 0 {| r_c := new_conn exh_g 0 1; r_hq := hp_new 1; r_q := mq_new 1; r_t := [] |} exh_ops with
+  | MsgQueue.Ok (_, xs) => map snd xs = [None; None; None; None; Some true; Some false; None; None; None; None; None; None; None; None; None; None; None] /\
+                  itx (flat_map fst xs) = [exm_ev 1; exr_a 1; repeat 8 250; repeat 8 250]
+  | MsgQueue.Fault _ => False
+  end.
+Proof. exact history_example. Qed.
